@@ -1,9 +1,13 @@
 import Driver.Proto
+import Driver.C07
+import Driver.C08
 import Driver.C09
 import Driver.C11
 import Driver.C11Mon
 
 def suites : List (String × Driver.Suite) :=
+  Driver.C07.suites ++
+  Driver.C08.suites ++
   Driver.C09.suites ++
   Driver.C11.suites ++
   Driver.C11Mon.suites
